@@ -33,13 +33,12 @@ def pySqrt (N : Num α) (x : α) : R α :=
   if N.isNeg x then throw .valueErr else N.sqrt x
 
 /-- `math.log(x, base)` = `log(x) / log(base)` : `ValueError` for non-positive arguments,
-`ZeroDivisionError` for `base == 1`. -/
-def pyLog (N : Num α) (x base : α) : R α := do
+`ZeroDivisionError` for `base == 1` (whose logarithm is `0.0`). -/
+def pyLog (N : Num α) (x base : α) : R α :=
   if N.isZero x || N.isNeg x then throw .valueErr
-  let num ← N.ln x
-  if N.isZero base || N.isNeg base then throw .valueErr
-  let den ← N.ln base
-  pyTrueDiv N num den
+  else if N.isZero base || N.isNeg base then throw .valueErr
+  else if N.eq base N.one then throw .zeroDiv
+  else N.logb x base
 
 /-! ### math_functions.py -/
 
